@@ -289,6 +289,81 @@ func (e dent) coq() string {
 	return fmt.Sprintf("(mkCfg %s %d %d 0 %s %s %s %s true)", iss, e.subj, vis, ktn(e.krsa), ktn(e.srsa), bs(!(e.prof && profStrict)), bs(e.vstyle != 5 && !inheritsExpired))
 }
 
+// a certificate and key of the user's own, as other tools write them; returns the file and the model's (certificate, key) term
+func userArtifact(rng *rand.Rand, nuser int) ([]byte, string) {
+	k, _ := ecdsa.GenerateKey(elliptic.P256(), crand.Reader)
+	variant := rng.Intn(8)
+	if variant == 0 || variant == 1 {
+		// a key whose scalar starts with a zero octet, stored without it (as older OpenSSL wrote such keys)
+		sc := make([]byte, 31)
+		crand.Read(sc)
+		sc[0] |= 1
+		k = ecKey("P-256", new(big.Int).SetBytes(sc))
+	}
+	expired := rng.Intn(5) == 0
+	na := time.Now().Add(20 * 365 * 24 * time.Hour)
+	if expired {
+		na = time.Now().Add(-30 * time.Minute)
+	}
+	tmpl := &x509.Certificate{SerialNumber: big.NewInt(int64(7000 + nuser)), Subject: pkix.Name{CommonName: fmt.Sprintf("user %d", nuser)},
+		NotBefore: time.Now().Add(-time.Hour), NotAfter: na, IsCA: true, BasicConstraintsValid: true}
+	der, _ := x509.CreateCertificate(crand.Reader, tmpl, tmpl, k.Public(), k)
+	kder, _ := x509.MarshalPKCS8PrivateKey(k)
+	if variant == 0 || variant == 1 {
+		kder = handPkcs8("P-256", k.D, 31, k, 0, true, false)
+	}
+	var o bytes.Buffer
+	if variant == 2 || variant == 3 {
+		// explanatory text in front of the blocks, as `openssl pkcs12` writes it; up to 70 KB of it
+		n := 1 + rng.Intn(40)
+		if variant == 3 {
+			n = 300 + rng.Intn(1200)
+		}
+		for j := 0; j < n; j++ {
+			fmt.Fprintf(&o, "Bag Attributes\n    friendlyName: user %d line %d\n    localKeyID: 01 02 03\n", nuser, j)
+		}
+	}
+	if variant == 4 {
+		pem.Encode(&o, &pem.Block{Type: "PRIVATE KEY", Bytes: kder})
+		pem.Encode(&o, &pem.Block{Type: "CERTIFICATE", Bytes: der})
+	} else {
+		pem.Encode(&o, &pem.Block{Type: "CERTIFICATE", Bytes: der})
+		pem.Encode(&o, &pem.Block{Type: "PRIVATE KEY", Bytes: kder})
+	}
+	if rng.Intn(3) == 0 {
+		o.WriteString("\n") // a trailing blank line, as editors leave it
+	}
+	return o.Bytes(), fmt.Sprintf("(mkCert %d 0 0 %d %d %d %s) (mkKey %d EC)", 800+nuser, 800+nuser, 900+nuser, 900+nuser, bs(expired), 900+nuser)
+}
+
+// what the tool writes is a hash line and at most one block of each kind, nothing else: leftovers of an earlier, longer file
+// (or a second certificate) would be read back instead of what was just written
+func artifactProblem(data []byte) string {
+	if bytes.HasPrefix(data, []byte("#HASH:")) {
+		if ix := bytes.IndexByte(data, '\n'); ix >= 0 {
+			data = data[ix+1:]
+		}
+	}
+	count := map[string]int{}
+	for {
+		var p *pem.Block
+		p, data = pem.Decode(data)
+		if p == nil {
+			break
+		}
+		count[p.Type]++
+	}
+	if len(bytes.TrimSpace(data)) != 0 {
+		return fmt.Sprintf("%d bytes that are not PEM blocks", len(data))
+	}
+	for t, n := range count {
+		if n > 1 {
+			return fmt.Sprintf("%d blocks of type %s", n, t)
+		}
+	}
+	return ""
+}
+
 type fileView struct {
 	hash      bool
 	crt       *x509.Certificate
@@ -587,6 +662,15 @@ func oneHistory(h int, faults bool) {
 					fmt.Fprintf(out, "SELFFAIL dirrun-%d-%d step %d: the run wrote %q, which is not the artifact path of any entity\n", seed, h, s, name)
 				}
 			}
+			if res == "ok" {
+				for name := range written {
+					if f, ok := m[name]; ok {
+						if pr := artifactProblem(f.Data); pr != "" {
+							fmt.Fprintf(out, "SELFFAIL dirrun-%d-%d step %d: the artifact %q written by the run holds %s\n", seed, h, s, name, pr)
+						}
+					}
+				}
+			}
 			for k, v := range before {
 				if cur, ok := m[k]; !written[k] && (!ok || string(cur.Data) != v) {
 					fmt.Fprintf(out, "SELFFAIL dirrun-%d-%d step %d: file %q was modified or removed by the run although it was not reported as written\n", seed, h, s, k)
@@ -679,50 +763,9 @@ func oneHistory(h int, faults bool) {
 		case r < 91: // the user replaces the artifact by an own certificate and key, without hash line
 			clock++
 			nuser++
-			k, _ := ecdsa.GenerateKey(elliptic.P256(), crand.Reader)
-			variant := rng.Intn(8)
-			if variant == 0 || variant == 1 {
-				// a key whose scalar starts with a zero octet, stored without it (as older OpenSSL wrote such keys)
-				sc := make([]byte, 31)
-				crand.Read(sc)
-				sc[0] |= 1
-				k = ecKey("P-256", new(big.Int).SetBytes(sc))
-			}
-			expired := rng.Intn(5) == 0
-			na := time.Now().Add(20 * 365 * 24 * time.Hour)
-			if expired {
-				na = time.Now().Add(-30 * time.Minute)
-			}
-			tmpl := &x509.Certificate{SerialNumber: big.NewInt(int64(7000 + nuser)), Subject: pkix.Name{CommonName: fmt.Sprintf("user %d", nuser)},
-				NotBefore: time.Now().Add(-time.Hour), NotAfter: na, IsCA: true, BasicConstraintsValid: true}
-			der, _ := x509.CreateCertificate(crand.Reader, tmpl, tmpl, k.Public(), k)
-			kder, _ := x509.MarshalPKCS8PrivateKey(k)
-			if variant == 0 || variant == 1 {
-				kder = handPkcs8("P-256", k.D, 31, k, 0, true, false)
-			}
-			var o bytes.Buffer
-			if variant == 2 || variant == 3 {
-				// explanatory text in front of the blocks, as `openssl pkcs12` writes it; up to 70 KB of it
-				n := 1 + rng.Intn(40)
-				if variant == 3 {
-					n = 300 + rng.Intn(1200)
-				}
-				for j := 0; j < n; j++ {
-					fmt.Fprintf(&o, "Bag Attributes\n    friendlyName: user %d line %d\n    localKeyID: 01 02 03\n", nuser, j)
-				}
-			}
-			if variant == 4 {
-				pem.Encode(&o, &pem.Block{Type: "PRIVATE KEY", Bytes: kder})
-				pem.Encode(&o, &pem.Block{Type: "CERTIFICATE", Bytes: der})
-			} else {
-				pem.Encode(&o, &pem.Block{Type: "CERTIFICATE", Bytes: der})
-				pem.Encode(&o, &pem.Block{Type: "PRIVATE KEY", Bytes: kder})
-			}
-			if rng.Intn(3) == 0 {
-				o.WriteString("\n") // a trailing blank line, as editors leave it
-			}
-			m[ents[i].pemPath(i)] = &fstest.MapFile{Data: o.Bytes(), Mode: 0644, ModTime: dtm(clock)}
-			ops = append(ops, fmt.Sprintf("U (OpReplaceUser %d (mkCert %d 0 0 %d %d %d %s) (mkKey %d EC))", i, 800+nuser, 800+nuser, 900+nuser, 900+nuser, bs(expired), 900+nuser))
+			data, term := userArtifact(rng, nuser)
+			m[ents[i].pemPath(i)] = &fstest.MapFile{Data: data, Mode: 0644, ModTime: dtm(clock)}
+			ops = append(ops, fmt.Sprintf("U (OpReplaceUser %d %s)", i, term))
 		default:
 			clock++
 			name := ents[i].pemPath(i)
